@@ -137,3 +137,99 @@ func layeredLocalFaults(c *Ctx, prop, fbin, abin, base string, want func(w wsSta
 	}
 	wg.Wait()
 }
+
+// layeredRemoteFaults: the REMOTE layer of the layered cache fails once (every remote operation instance of the build x
+// {error, Get failing in mid-stream, Get/Exists reporting absent, Set consuming the body and failing}) while machine A
+// rebuilds targets whose blobs exist in its local layer only (a first build ran with the remote disabled, then a command
+// got a comment: it re-executes and reproduces identical blobs). Whatever the build's exit status: the remote passes the
+// audit (no result without its blobs, no blob with wrong content); after a build that exited 0 a second machine builds
+// correctly from the remote.
+func layeredRemoteFaults(c *Ctx, prop, fbin, abin, base string, want func(w wsState) map[string]map[string]hist.Entry) {
+	w0 := wsState{}
+	w1 := wsState{}
+	w1.T[tgAppCmdComment] = true
+	w1.T[tgCmdComment] = true
+	seed, err := newUniverse(base)
+	if err != nil {
+		c.R.BrokenCheck("%v", err)
+		return
+	}
+	defer os.RemoveAll(seed.dir)
+	w0.source().Materialize(seed.a.WS(), nil)
+	if rr := seed.a.Run(fbin, hist.RunOpts{Args: []string{"build", "//..."}}); rr.Exit != 0 {
+		c.R.BrokenCheck("layered cache (remote faults): local-only build failed: %s", tail(rr.Output, 300))
+		return
+	}
+	w1.source().Materialize(seed.a.WS(), w0.source())
+	logU, err := seed.clone(base)
+	if err != nil {
+		c.R.BrokenCheck("%v", err)
+		return
+	}
+	logf := filepath.Join(logU.dir, "remotelog")
+	logU.a.Run(fbin, hist.RunOpts{Args: []string{"build", "//..."}, Env: map[string]string{"VERIF_REMOTE_DIR": logU.remote, "VERIF_REMOTE_LOG": logf}})
+	cnt := map[string]int{}
+	per := map[string]int{}
+	var faults []string
+	for _, l := range readLines(logf) {
+		f := strings.Fields(l)
+		cnt[f[0]]++
+		for _, m := range map[string][]string{"get": {"err", "late", "miss"}, "set": {"err", "late"}, "exists": {"err", "miss"}}[f[0]] {
+			per[f[0]+":"+m]++
+			if !c.Thorough && per[f[0]+":"+m] > 12 {
+				continue
+			}
+			faults = append(faults, fmt.Sprintf("%s#%d:%s", f[0], cnt[f[0]], m))
+		}
+	}
+	os.RemoveAll(logU.dir)
+	c.R.Set("layered_remote_fault_cases", len(faults))
+	wantL := want(w1)
+	var wg sync.WaitGroup
+	sem := make(chan struct{}, 24)
+	for _, f := range faults {
+		wg.Add(1)
+		sem <- struct{}{}
+		go func(f string) {
+			defer wg.Done()
+			defer func() { <-sem }()
+			u, err := seed.clone(base)
+			if err != nil {
+				c.R.BrokenCheck("%v", err)
+				return
+			}
+			defer os.RemoveAll(u.dir)
+			cls := f[:strings.Index(f, "#")] + f[strings.LastIndex(f, ":"):]
+			ra := u.a.Run(fbin, hist.RunOpts{Args: []string{"build", "//..."}, Env: map[string]string{"VERIF_REMOTE_DIR": u.remote, "VERIF_REMOTE_FAULT": f}})
+			replay := map[string]any{"scenario": "layered cache, blobs local-only, one remote fault", "remote_fault": f, "machine_A_exit": ra.Exit, "grog_output_tail": tail(ra.Output, 800)}
+			vio := func(sig, format string, a ...any) {
+				c.R.Violate(vc.Violation{Sig: prop + ":layered-cache:" + sig + ":remote-" + cls, Detail: fmt.Sprintf("machine A rebuilds targets whose blobs are in its local layer only, remote fault %s: ", f) + fmt.Sprintf(format, a...), Replay: replay})
+			}
+			if ra.TimedOut {
+				vio("build-hangs", "the build did not exit")
+				return
+			}
+			problems, _, _, _ := auditCache(abin, u.remote, "")
+			for _, p := range problems {
+				vio("remote-audit:"+p.Kind, "%s", p.Detail)
+			}
+			if ra.Exit == 0 {
+				w1.source().Materialize(u.b.WS(), nil)
+				rb := u.b.Run(fbin, hist.RunOpts{Args: []string{"build", "//..."}, Env: map[string]string{"VERIF_REMOTE_DIR": u.remote}})
+				if rb.Exit != 0 {
+					vio("machine-B-fails", "machine B exited %d: %s", rb.Exit, tail(rb.Output, 300))
+				} else {
+					for _, t := range w1.source().Targets {
+						if d := hist.DiffListing(outputsListing(u.b.WS(), t), wantL[t.Label()]); d != "" {
+							vio("machine-B-wrong-output", "%s differs from a from-scratch build: %s", t.Label(), d)
+						}
+					}
+				}
+			}
+			c.R.AddCounts(1, 1, 2, 1)
+			c.R.Outcome(fmt.Sprintf("layered-remote|%s|A=%d", cls, ra.Exit))
+			c.R.Nontrivial("layered-remote|" + f)
+		}(f)
+	}
+	wg.Wait()
+}
